@@ -87,5 +87,8 @@ Definition response_ok (size : Z) (rng : range_hdr) (r : response) : bool :=
   end.
 
 (* the conditional: 304 exactly when the file is not newer than If-Modified-Since (seconds) *)
-Definition not_modified (mtime : Z) (ims : option Z) : bool :=
-  match ims with Some t => mtime <=? t | None => false end.
+Definition not_modified (m : mtime) (ims : option Z) : bool :=
+  match ims with Some t => mtime_sec m <=? t | None => false end.
+
+(* Last-Modified of a served file: its modification time truncated to the second *)
+Definition last_modified (m : mtime) : Z := mtime_sec m.
